@@ -7,7 +7,7 @@ import struct
 
 VERIF = os.path.dirname(os.path.dirname(os.path.abspath(__file__)))
 BUILD = os.path.join(VERIF, '.build')
-IMPL_BIN = os.path.join(BUILD, 'cargo', 'debug', 'masscanned')
+IMPL_BIN = os.environ.get('VERIF_IMPL_BIN') or os.path.join(BUILD, 'cargo', 'debug', 'masscanned')   # override: coverage-instrumented build (harness/coverage.sh)
 IMPL_BIN_REL = os.path.join(BUILD, 'cargo', 'release', 'masscanned')
 MDRIVER = os.path.join(VERIF, 'lean', '.lake', 'build', 'bin', 'mdriver')
 
